@@ -16,6 +16,7 @@ type Summary struct {
 	MonEvals   map[string]int            `json:"monitor_evals"`
 	Violations []VRec                    `json:"violations"`
 	Samples    []string                  `json:"samples"`
+	Determinism *DetSummary              `json:"determinism,omitempty"`
 }
 
 type VRec struct {
@@ -27,7 +28,7 @@ type VRec struct {
 }
 
 func main() {
-	mode := flag.String("mode", "explore", "explore | corpus | replay | pureprice | purekeys")
+	mode := flag.String("mode", "explore", "explore | determinism | corpus | replay | pureprice | purekeys")
 	seed := flag.Int64("seed", 1, "PRNG seed")
 	n := flag.Int("n", 10, "number of generated histories")
 	minOps := flag.Int("minops", 30, "")
@@ -101,7 +102,15 @@ func main() {
 			h.ID = *firstID + i
 			runFixed(w, h, out, record)
 		}
-	case "explore":
+	case "explore", "determinism":
+		if *mode == "determinism" {
+			sum.Determinism = &DetSummary{}
+			// the directed witness first: several providers receive requests in one block
+			runFixedWith(w, detWitness(*firstID-1), out, true, func(r *Runner) {
+				record(r)
+				checkDeterminism(r, sum)
+			})
+		}
 		for i := 0; i < *n; i++ {
 			hs := *seed*1000003 + int64(i)
 			rng := rand.New(rand.NewSource(hs))
@@ -110,15 +119,20 @@ func main() {
 			g := &Gen{rng: rng, tempo: 0.15 + 0.2*rng.Float64(), txUsed: map[uint64]bool{}, k3: *k3}
 			h.Funding = (&Gen{rng: rng}).funding()
 			r := newRunner(w, a, h, out)
+			r.wantDigest = *mode == "determinism"
 			g.r = r
 			r.header()
 			nops := *minOps + rng.Intn(*maxOps-*minOps+1)
+			g.planExport(nops)
 			for j := 0; j < nops; j++ {
 				r.apply(g.next())
 			}
 			r.apply(&Op{Kind: "query"}) // every history ends with a query step (C17)
 			r.finish()
 			record(r)
+			if *mode == "determinism" {
+				checkDeterminism(r, sum)
+			}
 		}
 	}
 	if *sumPath != "" {
@@ -126,14 +140,23 @@ func main() {
 		must(os.WriteFile(*sumPath, b, 0644))
 	}
 	fmt.Printf("histories=%d steps=%d violations=%d\n", sum.Histories, sum.Steps, len(sum.Violations))
+	if d := sum.Determinism; d != nil {
+		fmt.Printf("determinism: histories=%d steps=%d digest_comparisons=%d differences=%d recovered_panics=%d\n",
+			d.Histories, d.Steps, d.DigestComparisons, d.Differences, d.RecoveredPanics)
+	}
 }
 
 // runFixed executes a history whose ops are already resolved.
 func runFixed(w *World, h *History, out *bufio.Writer, record func(*Runner)) {
+	runFixedWith(w, h, out, false, record)
+}
+
+func runFixedWith(w *World, h *History, out *bufio.Writer, digest bool, record func(*Runner)) {
 	ops := h.Ops
 	h.Ops = nil
 	a := atomsFor(h)
 	r := newRunner(w, a, h, out)
+	r.wantDigest = digest
 	r.header()
 	for i := range ops {
 		o := ops[i]
